@@ -1,8 +1,11 @@
 package main
 
 import (
+	"bufio"
+	"bytes"
 	"encoding/json"
 	"fmt"
+	"os"
 	"strings"
 
 	"seehuhn.de/go/postscript/type1/names"
@@ -160,12 +163,28 @@ func checkAGL(v *aglVector) *disagreement {
 	return &disagreement{Sig: "bad vector", What: "unknown vector kind " + v.K}
 }
 
-// replayAGL <vectors.ndjson>...
+// replayAGL [-passed out.ndjson] <vectors.ndjson>...
+//
+// With -passed, up to 60 vectors per input file on which the library AGREED are
+// copied to out.ndjson: the material of the negative control (a corrupted copy
+// of an agreeing vector must be rejected whatever the library's defects are).
 func replayAGL(args []string) error {
 	sum := replaySummary{PerOp: map[string]int{}, PerOpOK: map[string]int{}, BySig: map[string]int{}}
+	var passed *bufio.Writer
+	if len(args) >= 2 && args[0] == "-passed" {
+		f, err := os.Create(args[1])
+		if err != nil {
+			return err
+		}
+		defer f.Close()
+		passed = bufio.NewWriter(f)
+		defer passed.Flush()
+		args = args[2:]
+	}
 	seen := map[string]bool{}
 	sampled := map[string]bool{}
 	for _, path := range args {
+		nPassed := 0
 		err := model.ReadVectors(path, func(line int, raw []byte) error {
 			var v aglVector
 			if err := json.Unmarshal(raw, &v); err != nil {
@@ -203,6 +222,11 @@ func replayAGL(args []string) error {
 			if d == nil {
 				sum.Agreed++
 				sum.PerOpOK[cls]++
+				if passed != nil && nPassed < 60 && line%7 == 1 {
+					nPassed++
+					passed.Write(bytes.TrimSpace(raw))
+					passed.WriteByte('\n')
+				}
 				return nil
 			}
 			// reproduce alone (the functions are pure: a second, separate call)
@@ -216,8 +240,10 @@ func replayAGL(args []string) error {
 			// a composite that shows both known deviations counts once for each class
 			for _, sig := range strings.Split(d.Sig, " + ") {
 				e := *d
-				e.Sig = sig
-				e.What = aglWhat(sig)
+				if sig != d.Sig {
+					e.Sig = sig
+					e.What = aglWhat(sig)
+				}
 				sum.BySig[sig]++
 				if sum.BySig[sig] <= 3 && len(sum.Disagreements) < 200 {
 					sum.Disagreements = append(sum.Disagreements, e)
